@@ -181,8 +181,15 @@ Definition Inv (q : lstate) (acc : list ascii) (s : string) (ts : list token) : 
 
 (* one step of unfolding, for a step result given by computation *)
 Local Ltac stepH H q1 e1 :=
-  rewrite (lex_from_step _ _ _ _ q1 e1 eq_refl ltac:(discriminate)) in H;
-  cbn [ends_word toks_of app] in H.
+  match type of H with
+  | lex_from ?q ?acc (String ?c ?s) = _ =>
+      rewrite (lex_from_step q c s acc q1 e1 eq_refl ltac:(discriminate)) in H
+  end;
+  cbn [ends_word toks_of app] in H;
+  repeat match type of H with
+         | context [keeps ?q ?c] => let v := eval vm_compute in (keeps q c) in change (keeps q c) with v in H
+         end;
+  cbn iota in H.
 
 Local Ltac stepE H E q1 e1 :=
   rewrite (lex_from_step _ _ _ _ q1 e1 E ltac:(discriminate)) in H;
@@ -303,24 +310,24 @@ Proof.
       destruct (between_class c) as [Hws | [-> | [-> | [-> | [-> | [-> | [-> | [-> | [-> | Hok]]]]]]]]].
       * destruct (step_ws c Hws) as (_ & _ & E & _). stepE H E QBetween (@nil ev).
         assert (K : keeps QBetween c = false) by (cbn [keeps]; now rewrite Hws).
-        rewrite K in H. getIH IH H ts0 L. subst ts. constructor; [exact Hws | now apply L].
-      * stepH H QBetween [Semi]. getIH IH H ts0 L. subst ts. constructor. now apply L.
-      * stepH H QBetween [Open]. getIH IH H ts0 L. subst ts. constructor. now apply L.
-      * stepH H QBetween [Close]. getIH IH H ts0 L. subst ts. constructor. now apply L.
-      * stepH H QComment (@nil ev). change (keeps QBetween ch_hash) with false in H. cbn iota in H.
-        getIH IH H ts0 L. subst ts. constructor. now apply L.
-      * stepH H QBareEsc (@nil ev). change (keeps QBetween ch_bs) with true in H. cbn iota in H.
+        rewrite K in H. getIH IH H ts0 L. subst ts. apply L_ws; [exact Hws | now apply L].
+      * stepH H QBetween [Semi]. getIH IH H ts0 L. subst ts. apply L_semi. now apply L.
+      * stepH H QBetween [Open]. getIH IH H ts0 L. subst ts. apply L_open. now apply L.
+      * stepH H QBetween [Close]. getIH IH H ts0 L. subst ts. apply L_close. now apply L.
+      * stepH H QComment (@nil ev).
+        getIH IH H ts0 L. subst ts. apply L_comment. now apply L.
+      * stepH H QBareEsc (@nil ev).
         getIH IH H ts0 L. cbn [Inv] in L. destruct L as (c' & w & s' & ts' & -> & Hw & -> & HT). subst ts.
         rewrite wd_cons, wd_empty.
         change (String ch_bs (String c' (w ++ s'))) with (String ch_bs (String c' w) ++ s').
         apply L_bare; [now constructor | exact HT].
-      * stepH H QDQ (@nil ev). change (keeps QBetween ch_dq) with false in H. cbn iota in H.
+      * stepH H QDQ (@nil ev).
         getIH IH H ts0 L. cbn [Inv] in L. destruct L as (b & s' & ts' & -> & Hb & -> & HA). subst ts.
         rewrite wd_empty. now apply L_dq.
-      * stepH H QSQ (@nil ev). change (keeps QBetween ch_sq) with false in H. cbn iota in H.
+      * stepH H QSQ (@nil ev).
         getIH IH H ts0 L. cbn [Inv] in L. destruct L as (b & s' & ts' & -> & Hb & -> & HA). subst ts.
         rewrite wd_empty. now apply L_sq.
-      * stepH H QVar (@nil ev). change (keeps QBetween ch_dollar) with true in H. cbn iota in H.
+      * stepH H QVar (@nil ev).
         getIH IH H ts0 L. cbn [Inv] in L. destruct L as (w & s' & ts' & -> & Hw & -> & HT). subst ts.
         rewrite wd_cons, wd_empty.
         change (String ch_dollar (w ++ s')) with (String ch_dollar w ++ s').
@@ -333,13 +340,13 @@ Proof.
         apply L_bare; [now constructor | exact HT].
     + (* QBare *) exact (bare_step_sound QBare c s acc ts (or_introl eq_refl) IH H).
     + (* QBareEsc *)
-      stepH H QBare (@nil ev). change (keeps QBareEsc c) with true in H. cbn iota in H.
-      getIH IH H ts0 L. cbn [Inv] in L. destruct L as (w & s' & ts' & -> & Hw & -> & HT). subst ts.
+      stepH H QBare (@nil ev).
+        getIH IH H ts0 L. cbn [Inv] in L. destruct L as (w & s' & ts' & -> & Hw & -> & HT). subst ts.
       exists c, w, s', ts'. repeat split; [exact Hw | now rewrite wd_cons | exact HT].
     + (* QVar *)
       destruct (Ascii.eqb c ch_open) eqn:Eo.
       * apply Ascii.eqb_eq in Eo. subst c. stepH H QVar (@nil ev).
-        change (keeps QVar ch_open) with true in H. cbn iota in H.
+       
         getIH IH H ts0 L. cbn [Inv] in L. destruct L as (w & s' & ts' & -> & Hw & -> & HT). subst ts.
         exists (String ch_open w), s', ts'. repeat split; [now constructor | now rewrite wd_cons | exact HT].
       * apply Ascii.eqb_neq in Eo.
@@ -348,21 +355,21 @@ Proof.
         exists w, s', ts'. repeat split; [exact E | now apply vt_tail | exact Ets | exact HT].
     + (* QDQ *) exact (quote_step_sound QDQ QDQEsc ch_dq c s acc ts (or_introl (conj eq_refl (conj eq_refl eq_refl))) IH H).
     + (* QDQEsc *)
-      stepH H QDQ (@nil ev). change (keeps QDQEsc c) with true in H. cbn iota in H.
-      getIH IH H ts0 L. cbn [Inv] in L. destruct L as (b & s' & ts' & -> & Hb & -> & HA). subst ts.
+      stepH H QDQ (@nil ev).
+        getIH IH H ts0 L. cbn [Inv] in L. destruct L as (b & s' & ts' & -> & Hb & -> & HA). subst ts.
       exists c, b, s', ts'. repeat split; [exact Hb | now rewrite wd_cons | exact HA].
     + (* QSQ *) exact (quote_step_sound QSQ QSQEsc ch_sq c s acc ts (or_intror (conj eq_refl (conj eq_refl eq_refl))) IH H).
     + (* QSQEsc *)
-      stepH H QSQ (@nil ev). change (keeps QSQEsc c) with true in H. cbn iota in H.
-      getIH IH H ts0 L. cbn [Inv] in L. destruct L as (b & s' & ts' & -> & Hb & -> & HA). subst ts.
+      stepH H QSQ (@nil ev).
+        getIH IH H ts0 L. cbn [Inv] in L. destruct L as (b & s' & ts' & -> & Hb & -> & HA). subst ts.
       exists c, b, s', ts'. repeat split; [exact Hb | now rewrite wd_cons | exact HA].
     + (* QComment *)
       intros ->. destruct (Ascii.eqb c ch_lf) eqn:El.
       * apply Ascii.eqb_eq in El. subst c. stepH H QBetween (@nil ev).
-        change (keeps QComment ch_lf) with false in H. cbn iota in H.
-        getIH IH H ts0 L. subst ts. constructor. now apply L.
+       
+        getIH IH H ts0 L. subst ts. apply CR_lf. now apply L.
       * assert (E : step QComment c = (QComment, [])) by (cbn [step]; now rewrite El).
-        stepE H E QComment (@nil ev). change (keeps QComment c) with false in H. cbn iota in H.
+        stepE H E QComment (@nil ev).
         getIH IH H ts0 L. subst ts. apply CR_skip; [now apply Ascii.eqb_neq | now apply L].
     + (* QNeedSpace *)
       intros ->. destruct (needspace_class c) as [Hws | [-> | [-> | [-> | E]]]].
@@ -373,7 +380,7 @@ Proof.
         rewrite K in H. getIH IH H ts0 L. subst ts. apply A_ws; [exact Hws | now apply L].
       * stepH H QBetween [Semi]. getIH IH H ts0 L. subst ts. apply A_semi. now apply L.
       * stepH H QBetween [Open]. getIH IH H ts0 L. subst ts. apply A_open. now apply L.
-      * stepH H QBare (@nil ev). change (keeps QNeedSpace ch_rparen) with true in H. cbn iota in H.
+      * stepH H QBare (@nil ev).
         getIH IH H ts0 L. cbn [Inv] in L. destruct L as (w & s' & ts' & -> & Hw & -> & HT). subst ts.
         rewrite wd_cons, wd_empty. now apply A_paren.
       * rewrite (lex_from_err _ _ _ _ _ E) in H. discriminate H.
